@@ -10,7 +10,7 @@ META = {
     'design_ref': 'DESIGN.md §4 (section of C17), §5 (defects), §7 (seeded changes)',
     'text': 'Kernel-checked, unbounded theorems for the model of FS.resolveSymlink/Stat/Open/ReadDir and of handleSymlink/TargetOutsideRoot. The model is tied to the Go code by '
             'building real two-layer images for every symlink graph on up to 5 named entries (file / dir / missing / deleted by the later layer / relative or absolute link to any entry) '
-            'x MaxSymlinkDepth 0..6 (thorough: 559 630 graphs, all of them) or a seeded 3 000-graph sample with longer chains, noisy link spellings and outside-root targets (quick), and '
+            'x MaxSymlinkDepth 0..6 (thorough: every graph on up to 5 names, tar hard links included) or a seeded 3 000-graph sample with longer chains, noisy link spellings and outside-root targets (quick), and '
             'comparing Stat, Open (its own result and Stat on the handle) and ReadDir of every entry in both views, each judged strictly against the sentence (no slack at the budget edge). Absolute link names in non-canonical spelling (/./a, //a, /d/; repaired by fix a23f8926) are part of the random stream and of the corpus as a strict regression case.',
     'note': 'Trusted: Lean kernel; axioms propext/Quot.sound/Classical.choice at most; the Go harness, go-containerregistry image construction and the line protocol; node identity in a view = tree key; '
             'the uuid marker of TargetOutsideRoot occurs in no path segment; path.Clean/Join modelled at segment level.',
